@@ -148,6 +148,7 @@ let run_case ~(v0 : bool) (c : case) =
     | "pool" :: ks -> kinds := ks
     | "ext" :: es -> exts := es
     | "cbprobe" :: _ -> ()
+    | "cbwreset" :: _ -> print_endline "precond"; dead := true   (* re-entrant callback: outside the model *)
     | "constapi" :: _ -> ()
     | "fail" :: os -> fails := L.map int_of_string os
     | ["failfrom"; n] -> from := Some (int_of_string n)
